@@ -2,10 +2,12 @@ package props
 
 import (
 	"bytes"
+	"crypto/tls"
 	"crypto/x509"
 	"encoding/base64"
 	"encoding/xml"
 	"fmt"
+	dsig "github.com/russellhaering/goxmldsig"
 	"reflect"
 	"time"
 	_ "time/tzdata"
@@ -46,6 +48,25 @@ func zeroXMLNames(v reflect.Value) {
 			zeroXMLNames(v.Index(i))
 		}
 	}
+}
+
+// extraPublishedCerts lists certificates published under the given use beyond the first one of the first descriptor.
+func extraPublishedCerts(md *types.EntityDescriptor, use string) []string {
+	var out []string
+	if md.SPSSODescriptor == nil {
+		return nil
+	}
+	for _, kd := range md.SPSSODescriptor.KeyDescriptors {
+		if kd.Use != use {
+			continue
+		}
+		for i, c := range kd.KeyInfo.X509Data.X509Certificates {
+			if i > 0 {
+				out = append(out, c.Data)
+			}
+		}
+	}
+	return out
 }
 
 func descriptorCert(md *types.EntityDescriptor, use string) (string, []string, int) {
@@ -115,11 +136,31 @@ func runC19(c *mon.Ctx) {
 			now = d.t.Add(-time.Duration(r.Int64N(int64(7 * 24 * time.Hour)))).Add(time.Duration(r.IntN(1e9))).In(d.loc)
 			zone = d.loc
 		}
+		nearExpiry := r.IntN(6) == 0
+		if nearExpiry {
+			// the SP clock sits in the last days of (or just past) its own certificates' validity: the metadata's
+			// validity is still counted from the clock alone
+			notAfter := sim.Wide(sim.K("spenc"), base).X509.NotAfter
+			now = notAfter.Add(-time.Duration(r.Int64N(int64(8*24*time.Hour))) + time.Duration(r.IntN(3))*time.Hour).In(zone)
+		}
 		w := NewWorld(base)
 		signer := w.IdP[2]
 		ksp := NewKeyedSP(base, kc, signer)
 		ksp.Clk.Set(now)
 		sp := ksp.SP
+		sp.ValidateEncryptionCert = r.IntN(2) == 0
+		chain := r.IntN(5) == 0
+		if chain {
+			// key pairs loaded from certificate bundles: [the SP's certificate, the issuing CA's]. The CA's key neither
+			// signs the SP's messages nor decrypts what is sent to it
+			ca := sim.MintUsage(sim.K("idp4"), "verif-issuing-ca", base.AddDate(-15, 0, 0), base.AddDate(15, 0, 0), 91, 3)
+			if c := ksp.Certs["encF"]; c != nil {
+				sp.SPKeyStore = dsig.TLSCertKeyStore(tls.Certificate{Certificate: [][]byte{c.DER, ca.DER}, PrivateKey: c.Key.RSA()})
+			}
+			if c := ksp.Certs["signF"]; c != nil {
+				sp.SPSigningKeyStore = dsig.TLSCertKeyStore(tls.Certificate{Certificate: [][]byte{c.DER, ca.DER}, PrivateKey: c.Key.RSA()})
+			}
+		}
 		sp.SignAuthnRequests = r.IntN(2) == 0
 		sp.SkipSignatureValidation = r.IntN(4) == 0
 		o := &OutCfg{}
@@ -202,6 +243,17 @@ func runC19(c *mon.Ctx) {
 					der, _ := base64.StdEncoding.DecodeString(sc)
 					if key, msg := VerifyEnveloped(x, &sim.Cert{Key: wantSign.Key, DER: der, X509: wantSign.X509}, 5 /* crypto.SHA256 */, CanonChoice{}.Effective(), base); key != "" {
 						fail("published-signing-key-does-not-verify", "%s: message signed by the SP does not verify with the published signing key: %s %s", name, key, msg)
+					}
+				}
+			}
+			for _, use := range []string{"signing", "encryption"} {
+				for _, extra := range extraPublishedCerts(m, use) {
+					want := ksp.Certs[ksp.WantEnc]
+					if use == "signing" {
+						want = ksp.Certs[ksp.WantSign]
+					}
+					if extra != base64.StdEncoding.EncodeToString(want.DER) {
+						fail("further-"+use+"-key-published", "%s publishes a further %s certificate whose key is not the one that does the %s (%d base64 characters)", name, use, use, len(extra))
 					}
 				}
 			}
